@@ -7,6 +7,56 @@ V = os.path.dirname(os.path.dirname(os.path.abspath(__file__)))
 props = [json.loads(l) for l in open(os.path.join(V, 'properties.jsonl'))]
 
 CLAIMED = {
+    'C02': dict(
+        text='ISA.tla!ExecLS/ExecLSD specify LDR/STR/LDRB/STRB/LDRH/STRH/LDRSB/LDRSH/LDRD/STRD (immediate, register, literal, '
+             'unprivileged T forms) for ARM, 16-bit and 32-bit Thumb on top of Mem.tla (MemU/MemA, endianness, alignment '
+             'policy); random words x P/U/W x registers x base addresses in RAM, at 0xFFFFFFxx and wrapping x alignment 0..3 x '
+             'CPSR.E x SCTLR.A/U x arch 6/7 are executed by emulate_cycle() and the full post-state (registers, write-back, '
+             'every memory byte, abort bookkeeping) is judged by TLC.',
+        note='sampled operands; exclusive loads/stores are not specified yet (envelope only); UNKNOWN results of pre-v7 '
+             'unaligned accesses are don\'t-care; word stores of SP through the T32 imm8 form are treated as unsure.',
+        technique='TLA+ machine specification + TLC trace validation of recorded emulate_cycle() events',
+        ref='DESIGN.md §4 C02'),
+    'C03': dict(
+        text='MC_LSM: TLC checks the LDM/STM pseudocode loops against the property wording (k-th lowest register <-> k-th word, '
+             'exact footprint, write-back value, PUSH;POP identity) for structured lists (quick) / all 2^16 lists (thorough) '
+             'x IA/IB/DA/DB x W x base incl. wrap. Conformance: random and structured lists for ARM LDM/STM, 16-bit '
+             'PUSH/POP/LDM/STM, 32-bit LDM/STM/PUSH/POP and PUSH;POP programs executed by the real code, full state judged by TLC.',
+        note='user-bank / exception-return LDM/STM forms, SRS and RFE are not specified yet (envelope only); registers loaded '
+             'before an abort and a stored non-lowest base are UNKNOWN (don\'t-care).',
+        technique='TLC model checking of the block-transfer pseudocode + TLC trace validation',
+        ref='DESIGN.md §4 C03'),
+    'C04': dict(
+        text='ISA.tla specifies B (A1, T1-T4), BL/BLX immediate (A1, A2, T1, T2), BLX/BX register, CBZ/CBNZ, TBB/TBH and '
+             'PC-writing ALU/load forms with BranchWritePC/BXWritePC/ALUWritePC/LoadWritePC; Arm!StepF advances the PC by the '
+             'instruction length otherwise. Random offsets over all sign/size combinations, instruction addresses in low RAM '
+             'and at 0xFFFFFFxx, arch 4..7, both instruction sets, are executed by emulate_cycle(); PC, LR, T and the rest of '
+             'the state are judged by TLC. PC advance is additionally part of every exact verdict of C01-C03.',
+        note='offsets are sampled, not enumerated (the offset formation is affine); BXJ is not specified.',
+        technique='TLA+ machine specification + TLC trace validation',
+        ref='DESIGN.md §4 C04'),
+    'C11': dict(
+        text='MC_Exc: TLC checks the exception-entry pseudocode (Exc.tla) against the property statement (target mode by the '
+             'routing rule, SPSR = old CPSR, return address per kind and instruction set, I/F/A masks, IT/J cleared, T/E from '
+             'SCTLR/HSCTLR, vector base incl. high vectors/VBAR/MVBAR/HVBAR, SCR.NS cleared from Monitor, frame) over kind x '
+             'source mode x T x IT x A/I/F x SCTLR.{V,VE,TE,EE} x SCR.{NS,EA,IRQ,FIQ,AW,FW} x HCR.{TGE,IMO,FMO} x extensions '
+             'x PC (2e5 scenarios quick). The same TLC run prints every scenario; each is built on the real object, '
+             'take_*_exception() is called and the full post-state is judged by TLC against Exc.tla (quick: every 5th).',
+        note='external aborts, debug exceptions and virtual interrupts do not exist in the emulator; HSR is don\'t-care for '
+             'interrupts routed to Hyp; Reset is specified as a relation (most state is UNKNOWN).',
+        technique='TLC model checking of the exception-entry spec + scenario replay on the implementation judged by TLC',
+        ref='DESIGN.md §4 C11'),
+    'C16': dict(
+        text='MC_Hub: TLC explores every history (depth 2 quick / 3 thorough) of reads/writes of sizes 1/2/4/8 at every '
+             'address around 7 device layouts (odd sizes, adjacent, gapped, overlapping with first-match priority, top of '
+             'the address space) and checks the operational hub model against the property\'s device/flat reading, size '
+             'constancy and footprint. Every TLC behaviour (BFS depth 2: ~1e5, plus simulated depth-8) is replayed on a real '
+             'MemoryControllerHub with RAM devices comparing device sizes, every byte and every value read, and catching '
+             'host errors.',
+        note='bytes of a write that crosses a device end may or may not be written (don\'t-care as the property states).',
+        technique='TLC model checking of the hub spec + replay of every TLC behaviour on the implementation',
+        ref='DESIGN.md §4 C16'),
+
     'C01': dict(
         text='ISA.tla/Decode.tla specify the data-processing instructions (all 16 ARM opcodes in immediate, register and '
              'register-shifted-register form, MOVW/MOVT, ADR, the 16-bit Thumb shift/add/sub/mov/cmp, data-processing and '
